@@ -53,3 +53,22 @@ CHECKS["C06"].update({
                   "the detecting power against TASMANIAN changes comes from the histories and the continuation oracle",
     "technique": "deterministic simulation of the persistence medium (simulated file system and chunked streams with benign I/O faults) over seeded operation histories, checked against the un-serialised twin",
 })
+
+CHECKS["C09"] = {
+    "id": "C09", "engine": "deliver", "flavour": "asan", "binary": "build/asan/c09", "level": "exploration",
+    "tiers": {"quick": {"runs": 160000, "batch": 1000, "wall_cap": 420}, "thorough": {"runs": 4000000, "batch": 2000, "wall_cap": 2400}},
+    "rule": "one case = a seeded grid configuration (Global nested rules, Sequence, LocalPolynomial all rules/orders, Wavelet, Fourier; 1-3 dims; 1-2 outputs; limits; domain transform), "
+            "a target set (points of a second grid of the same family with other depth/type/weights, united with the start grid), start fresh or loaded, "
+            "and a delivery schedule: permutation (shuffle/sorted/reverse), batch partition, and interleaved candidate queries, write/read and copies of the half-built grid; "
+            "distinct = distinct (start state shape, number of samples, order, schedule); non-trivial = at least 2 samples",
+    "components": {"real": ["beginConstruction / getCandidateConstructionPoints / loadConstructedPoints (single and batch paths) / finishConstruction of all five families", "grid write/read/copy"],
+                   "simulated": ["the sample channel between model workers and the grid: arrival order, batching, delay relative to candidate queries, checkpoint/restore and copies (no loss, no duplication)", "model values (injective function of point and output)"]},
+    "expect_probes": ["reach.samples_parked", "reach.delivery_promoted_points", "reach.delivery_between_candidate_queries"],
+    "assumptions": ["surrogate and coefficients compared with the one-batch twin to 1e-9 relative (incremental surplus updates and iterative wavelet solves differ in the last digits); stored values bit-for-bit",
+                    "construction is driven without conformal maps"],
+    "level_text": "seeded exploration of delivery schedules (reordering, batching, interleaving with candidate queries / checkpoint-restore / copies) of a target sample set, "
+                  "with per-delivery invariants and comparison against a twin loaded in one batch",
+    "level_note": "samples permutations and batchings; a clean batch is evidence, not proof. Trusted: the one-batch path as reference together with the coordinate->value map, ASan/UBSan",
+    "technique": "deterministic simulation of the sample-delivery channel (seeded reordering/batching/interleaving) with invariants after every delivery and a one-batch reference twin",
+    "determinism_runs": 1500, "exec_timeout": 120, "batch_timeout": 600,
+}
